@@ -19,7 +19,9 @@ GTor ==
   \/ \E s \in StreamIds, ra \in RemapAddrs : Remap(s, ra) /\ H([a |-> "Remap", ev |-> SE(s, "REMAP", ts[s].circ, ra, "")])
   \/ \E s \in StreamIds : Succeeded(s) /\ H([a |-> "Succeeded", ev |-> SE(s, "SUCCEEDED", ts[s].circ, ts[s].tgt, "")])
   \/ \E s \in StreamIds : Detached(s) /\ H([a |-> "Detached", ev |-> SE(s, "DETACHED", ts[s].circ, ts[s].tgt, "")])
-  \/ \E s \in StreamIds, how \in {"CLOSED", "FAILED"} : StreamGone(s, how) /\ H([a |-> "StreamGone", ev |-> SE(s, how, ts[s].circ, ts[s].tgt, "")])
+  \/ \E s \in StreamIds, how \in {"CLOSED", "FAILED"}, z \in BOOLEAN :
+        StreamGone(s, how, z) /\ H([a |-> "StreamGone", z |-> z, ev |-> SE(s, how, ts[s].circ, ts[s].tgt, "")])
+  \/ \E s \in StreamIds : LateClosed(s) /\ H([a |-> "LateClosed", ev |-> SE(s, "CLOSED", 0, ts[s].tgt, "")])
 GUser ==
   \/ \E l \in Listeners : AddListener(l) /\ H([a |-> "AddListener", l |-> l])
   \/ \E l \in Listeners, c \in CircIds : UnlistenC(l, c) /\ H([a |-> "UnlistenC", l |-> l, id |-> c])
